@@ -55,54 +55,6 @@ theorem cli_test_eq (lib : Lib σ) (inv : Inv) : cli lib .test inv = testClosed 
             simp [run, evalRhs, evalCond, crash, argText, argSrc, evalArg, asText, asSrc, hp, he, hr,
               hb, h, bind, Except.bind, pure, Except.pure]
 
-def editClosed (lib : Lib σ) (cmd : Cmd) (inv : Inv) : Res :=
-  match inv.content with
-  | .error e => tracebackRes e
-  | .ok t =>
-    match libEdit lib cmd inv.npath inv.value t with
-    | .error e => tracebackRes e
-    | .ok text => ⟨text ++ ['\n'], 0, none, false⟩
-
-theorem cli_set_eq (lib : Lib σ) (inv : Inv) : cli lib .set inv = editClosed lib .set inv := by
-  unfold cli runProg progOf setProg editClosed tracebackRes libEdit
-  cases hc : inv.content with
-  | error e => simp [run, evalRhs, crash]
-  | ok t =>
-    cases hp : lib.parse t with
-    | error e => simp [run, evalRhs, crash, argText, evalArg, asText, hp, bind, Except.bind]
-    | ok s =>
-      cases hs : lib.setValue s inv.npath inv.value with
-      | error e =>
-        simp [run, evalRhs, crash, argText, argSrc, evalArg, asText, asSrc, cliArgVal, hp, hs, bind,
-          Except.bind, pure, Except.pure]
-      | ok text =>
-        simp [run, evalRhs, crash, argText, argSrc, evalArg, asText, asSrc, cliArgVal, hp, hs, bind,
-          Except.bind, pure, Except.pure]
-
-theorem cli_rm_eq (lib : Lib σ) (inv : Inv) : cli lib .rm inv = editClosed lib .rm inv := by
-  unfold cli runProg progOf rmProg editClosed tracebackRes libEdit
-  cases hc : inv.content with
-  | error e => simp [run, evalRhs, crash]
-  | ok t =>
-    cases hp : lib.parse t with
-    | error e => simp [run, evalRhs, crash, argText, evalArg, asText, hp, bind, Except.bind]
-    | ok s =>
-      cases hs : lib.removeValue s inv.npath with
-      | error e =>
-        simp [run, evalRhs, crash, argText, argSrc, evalArg, asText, asSrc, cliArgVal, hp, hs, bind,
-          Except.bind, pure, Except.pure]
-      | ok text =>
-        simp [run, evalRhs, crash, argText, argSrc, evalArg, asText, asSrc, cliArgVal, hp, hs, bind,
-          Except.bind, pure, Except.pure]
-
-/-- `set` and `rm` have the same closed form. -/
-theorem cli_edit_eq (lib : Lib σ) (cmd : Cmd) (h : cmd ≠ .test) (inv : Inv) :
-    cli lib cmd inv = editClosed lib cmd inv := by
-  cases cmd with
-  | test => exact absurd rfl h
-  | set => exact cli_set_eq lib inv
-  | rm => exact cli_rm_eq lib inv
-
 /-! ## Text lemmas -/
 
 theorem endsWith_newline_iff (t : Text) : endsWith t ['\n'] = true ↔ t.getLast? = some '\n' := by
@@ -370,9 +322,9 @@ theorem run_stdout_prefix (lib : Lib σ) (content : Except Err Text) (c : Channe
   | ret n => exact ⟨[], by simp [run]⟩
   | done => exact ⟨[], by simp [run]⟩
 
-/-! ## The repaired edit programs -/
+/-! ## Closed form of the current `set` / `rm` -/
 
-def repairedClosed (lib : Lib σ) (cmd : Cmd) (inv : Inv) : Res :=
+def editClosed (lib : Lib σ) (cmd : Cmd) (inv : Inv) : Res :=
   match inv.content with
   | .error e => tracebackRes e
   | .ok t =>
@@ -380,9 +332,9 @@ def repairedClosed (lib : Lib σ) (cmd : Cmd) (inv : Inv) : Res :=
     | .error e => tracebackRes e
     | .ok text => ⟨ensureNewline text, 0, none, false⟩
 
-theorem repaired_set_eq (lib : Lib σ) (inv : Inv) :
-    runProg lib repairedSetProg inv = repairedClosed lib .set inv := by
-  unfold runProg repairedSetProg repairedEdit repairedClosed tracebackRes libEdit
+theorem cli_set_eq (lib : Lib σ) (inv : Inv) :
+    cli lib .set inv = editClosed lib .set inv := by
+  unfold cli runProg progOf setProg editProg editClosed tracebackRes libEdit
   cases hc : inv.content with
   | error e => simp [run, evalRhs, crash]
   | ok t =>
@@ -405,9 +357,9 @@ theorem repaired_set_eq (lib : Lib σ) (inv : Inv) :
           simp [run, evalRhs, evalCond, crash, argText, argSrc, evalArg, asText, asSrc, cliArgVal, hp, hs,
             h1, ensureNewline, hn, bind, Except.bind, pure, Except.pure]
 
-theorem repaired_rm_eq (lib : Lib σ) (inv : Inv) :
-    runProg lib repairedRmProg inv = repairedClosed lib .rm inv := by
-  unfold runProg repairedRmProg repairedEdit repairedClosed tracebackRes libEdit
+theorem cli_rm_eq (lib : Lib σ) (inv : Inv) :
+    cli lib .rm inv = editClosed lib .rm inv := by
+  unfold cli runProg progOf rmProg editProg editClosed tracebackRes libEdit
   cases hc : inv.content with
   | error e => simp [run, evalRhs, crash]
   | ok t =>
@@ -429,5 +381,63 @@ theorem repaired_rm_eq (lib : Lib σ) (inv : Inv) :
             | true => exact absurd ((endsWith_newline_iff text).mp h) hn
           simp [run, evalRhs, evalCond, crash, argText, argSrc, evalArg, asText, asSrc, cliArgVal, hp, hs,
             h1, ensureNewline, hn, bind, Except.bind, pure, Except.pure]
+
+/-- `set` and `rm` have the same closed form. -/
+theorem cli_edit_eq (lib : Lib σ) (cmd : Cmd) (h : cmd ≠ .test) (inv : Inv) :
+    cli lib cmd inv = editClosed lib cmd inv := by
+  cases cmd with
+  | test => exact absurd rfl h
+  | set => exact cli_set_eq lib inv
+  | rm => exact cli_rm_eq lib inv
+
+/-! ### the programs before /repo 9670208 (print-based) -/
+
+def oldEditClosed (lib : Lib σ) (cmd : Cmd) (inv : Inv) : Res :=
+  match inv.content with
+  | .error e => tracebackRes e
+  | .ok t =>
+    match libEdit lib cmd inv.npath inv.value t with
+    | .error e => tracebackRes e
+    | .ok text => ⟨text ++ ['\n'], 0, none, false⟩
+
+theorem oldCli_set_eq (lib : Lib σ) (inv : Inv) : oldCli lib .set inv = oldEditClosed lib .set inv := by
+  unfold oldCli runProg oldProgOf oldSetProg oldEditProg oldEditClosed tracebackRes libEdit
+  cases hc : inv.content with
+  | error e => simp [run, evalRhs, crash]
+  | ok t =>
+    cases hp : lib.parse t with
+    | error e => simp [run, evalRhs, crash, argText, evalArg, asText, hp, bind, Except.bind]
+    | ok s =>
+      cases hs : lib.setValue s inv.npath inv.value with
+      | error e =>
+        simp [run, evalRhs, crash, argText, argSrc, evalArg, asText, asSrc, cliArgVal, hp, hs, bind,
+          Except.bind, pure, Except.pure]
+      | ok text =>
+        simp [run, evalRhs, crash, argText, argSrc, evalArg, asText, asSrc, cliArgVal, hp, hs, bind,
+          Except.bind, pure, Except.pure]
+
+theorem oldCli_rm_eq (lib : Lib σ) (inv : Inv) : oldCli lib .rm inv = oldEditClosed lib .rm inv := by
+  unfold oldCli runProg oldProgOf oldRmProg oldEditProg oldEditClosed tracebackRes libEdit
+  cases hc : inv.content with
+  | error e => simp [run, evalRhs, crash]
+  | ok t =>
+    cases hp : lib.parse t with
+    | error e => simp [run, evalRhs, crash, argText, evalArg, asText, hp, bind, Except.bind]
+    | ok s =>
+      cases hs : lib.removeValue s inv.npath with
+      | error e =>
+        simp [run, evalRhs, crash, argText, argSrc, evalArg, asText, asSrc, cliArgVal, hp, hs, bind,
+          Except.bind, pure, Except.pure]
+      | ok text =>
+        simp [run, evalRhs, crash, argText, argSrc, evalArg, asText, asSrc, cliArgVal, hp, hs, bind,
+          Except.bind, pure, Except.pure]
+
+/-- the old `set` and `rm` have the same closed form. -/
+theorem oldCli_edit_eq (lib : Lib σ) (cmd : Cmd) (h : cmd ≠ .test) (inv : Inv) :
+    oldCli lib cmd inv = oldEditClosed lib cmd inv := by
+  cases cmd with
+  | test => exact absurd rfl h
+  | set => exact oldCli_set_eq lib inv
+  | rm => exact oldCli_rm_eq lib inv
 
 end Nima.Cli
